@@ -141,25 +141,83 @@ Proof.
 Qed.
 
 (* ---------------------------------------------------------------- metadata: a good answer determines the entries *)
-Lemma try_path_skips f v p s :
-  ignore_errors f = false -> ignore_missing f = false ->
-  forall k tries n fs nreq err,
-  (forall j, n <= j < n + k -> transient (rbody (nth_resp s j)) = true) ->
-  exists nreq' err', try_path f v p s (k + tries) n fs nreq err = try_path f v p s tries (n + k) fs nreq' err'.
+Definition settled_paths (v : variant) (a : N) (d : Z) (fs : lfs) : Prop :=
+  forall q, In q (vpaths v) -> lookup fs q = Some {| fsize := a; fmt := Date d |}.
+
+(* the complete body settles every path of the variant, transferred or recognised as unmodified *)
+Lemma handle_good_settles f v p ps fs a d :
+  vpaths v = p :: ps -> a <> 0%N -> ((0 < vsize v)%N -> a = vsize v) ->
+  exists um fs', handle f v p fs (BOk (Some a) (Some d) a false) = VDone um a fs' /\ settled_paths v a d fs'.
 Proof.
-  intros He Hm. induction k as [|k IH]; intros tries n fs nreq err Ht.
-  - exists nreq, err. rewrite Nat.add_0_r. reflexivity.
-  - cbn [Nat.add try_path].
-    assert (T : transient (rbody (nth_resp s n)) = true) by (apply Ht; lia).
-    destruct (rbody (nth_resp s n)) as [| |ann date del ab] eqn:Eb; try discriminate.
-    + cbn [handle]. rewrite He, Hm. cbn [orb].
-      destruct (IH tries (S n) fs (nreq + pre_retries (nth_resp s n) + 1) (err || false)) as [nr [er E]].
-      { intros j Hj. apply Ht. lia. }
-      exists nr, er. rewrite E. f_equal. lia.
-    + cbn [handle]. rewrite He.
-      destruct (IH tries (S n) fs (nreq + pre_retries (nth_resp s n) + 1) (err || true)) as [nr [er E]].
-      { intros j Hj. apply Ht. lia. }
-      exists nr, er. rewrite E. f_equal. lia.
+  intros Ep Ha Hsz. cbn [handle positive_opt].
+  destruct (N.eqb a 0) eqn:Ez; [apply N.eqb_eq in Ez; contradiction|].
+  assert (Hmis : (N.ltb 0 (vsize v) && negb (N.eqb a (vsize v))) = false).
+  { destruct (N.ltb 0 (vsize v)) eqn:El; [|reflexivity]. apply N.ltb_lt in El. rewrite (Hsz El), N.eqb_refl. reflexivity. }
+  rewrite Hmis.
+  destruct (need_update fs p (Some a) (Some d)) eqn:En; cbn [negb].
+  - assert (Hmis2 : (N.ltb 0 (vsize v) && negb (N.eqb (vsize v) a)) = false).
+    { destruct (N.ltb 0 (vsize v)) eqn:El; [|reflexivity]. apply N.ltb_lt in El. rewrite (Hsz El), N.eqb_refl. reflexivity. }
+    rewrite Hmis2. eexists _, _. split; [reflexivity|].
+    intros q Hq. rewrite lookup_set_all, (in_string_mem q (vpaths v) Hq). reflexivity.
+  - destruct (need_update_false _ _ _ _ En) as [i [d' [a' [Hl [Hd [Hp [Hf Hs]]]]]]].
+    injection Hd as <-. cbn [positive_opt] in Hp. rewrite Ez in Hp. injection Hp as <-.
+    rewrite Hl. eexists _, _. split; [reflexivity|].
+    intros q Hq. rewrite lookup_set_all, (in_string_mem q (vpaths v) Hq).
+    destruct i as [sz mt]. cbn in Hf, Hs. subst. reflexivity.
+Qed.
+
+(* a fault of the same file either costs one try or - when the local copy already is that file - settles it *)
+Lemma handle_fault_step f v p ps fs a d b :
+  vpaths v = p :: ps -> a <> 0%N -> ((0 < vsize v)%N -> a = vsize v) ->
+  ignore_errors f = false -> ignore_missing f = false ->
+  same_file_fault v a d b = true ->
+  (exists e fs', handle f v p fs b = VRetry e fs') \/
+  (exists um fs', handle f v p fs b = VDone um a fs' /\ settled_paths v a d fs').
+Proof.
+  intros Ep Ha Hsz He Hm Hb. destruct b as [| |ann date del ab].
+  - left. cbn [handle]. rewrite He, Hm. eexists _, _. reflexivity.
+  - left. cbn [handle]. rewrite He. eexists _, _. reflexivity.
+  - destruct ann as [a'|]; [|discriminate]. destruct date as [d'|]; [|discriminate]. cbn [same_file_fault] in Hb.
+    apply andb_prop in Hb as [Hb Hcut]. apply andb_prop in Hb as [Ea Ed].
+    apply N.eqb_eq in Ea. apply Z.eqb_eq in Ed. subst a' d'.
+    cbn [handle positive_opt].
+    destruct (N.eqb a 0) eqn:Ez; [apply N.eqb_eq in Ez; contradiction|].
+    assert (Hmis : (N.ltb 0 (vsize v) && negb (N.eqb a (vsize v))) = false).
+    { destruct (N.ltb 0 (vsize v)) eqn:El; [|reflexivity]. apply N.ltb_lt in El. rewrite (Hsz El), N.eqb_refl. reflexivity. }
+    rewrite Hmis.
+    destruct (need_update fs p (Some a) (Some d)) eqn:En; cbn [negb].
+    + left. destruct ab; [eexists _, _; reflexivity|]. cbn [orb] in Hcut.
+      apply andb_prop in Hcut as [Hl Hne].
+      assert (X : (N.ltb 0 (vsize v) && negb (N.eqb (vsize v) del)) = true).
+      { rewrite Hl. cbn [andb]. apply N.ltb_lt in Hl. rewrite <- (Hsz Hl). rewrite N.eqb_sym. exact Hne. }
+      rewrite X. eexists _, _. reflexivity.
+    + right. destruct (need_update_false _ _ _ _ En) as [i [d' [a' [Hl [Hd [Hp [Hf Hs]]]]]]].
+      injection Hd as <-. cbn [positive_opt] in Hp. rewrite Ez in Hp. injection Hp as <-.
+      rewrite Hl. eexists _, _. split; [reflexivity|].
+      intros q Hq. rewrite lookup_set_all, (in_string_mem q (vpaths v) Hq).
+      destruct i as [sz mt]. cbn in Hf, Hs. subst. reflexivity.
+Qed.
+
+Lemma try_path_eventually f v p ps s a d :
+  vpaths v = p :: ps -> a <> 0%N -> ((0 < vsize v)%N -> a = vsize v) ->
+  forall k tries n fs nreq err,
+  (k = 0 \/ (ignore_errors f = false /\ ignore_missing f = false)) ->
+  (forall j, n <= j < n + k -> same_file_fault v a d (rbody (nth_resp s j)) = true) ->
+  rbody (nth_resp s (n + k)) = BOk (Some a) (Some d) a false ->
+  k < tries ->
+  exists um sz fs' j e, try_path f v p s tries n fs nreq err = PDone um sz fs' j e /\ settled_paths v a d fs'.
+Proof.
+  intros Ep Ha Hsz. induction k as [|k IH]; intros tries n fs nreq err Hreq Hf Hg Hk.
+  - destruct tries as [|t]; [lia|]. cbn [try_path]. rewrite Nat.add_0_r in Hg. rewrite Hg.
+    destruct (handle_good_settles f v p ps fs a d Ep Ha Hsz) as [um [fs' [Hh Hs]]]. rewrite Hh.
+    eexists _, _, _, _, _. split; [reflexivity|exact Hs].
+  - destruct Hreq as [Hz|[He Hm]]; [discriminate|].
+    destruct tries as [|t]; [lia|]. cbn [try_path].
+    assert (Hb : same_file_fault v a d (rbody (nth_resp s n)) = true) by (apply Hf; lia).
+    destruct (handle_fault_step f v p ps fs a d _ Ep Ha Hsz He Hm Hb) as [[e [fs' Hh]]|[um [fs' [Hh Hs]]]]; rewrite Hh.
+    + apply (IH t (S n) fs'); [right; split; assumption| |replace (S n + k) with (n + S k) by lia; exact Hg|lia].
+      intros j Hj. apply Hf. lia.
+    + eexists _, _, _, _, _. split; [reflexivity|exact Hs].
 Qed.
 
 Lemma good_meta_file swallow f u v a d fs :
@@ -171,28 +229,9 @@ Proof.
   intros [Hcs [Ha [Hsz [vs [p [ps [k [Ev [Ep [Hk [Hreq [Htr Hb]]]]]]]]]]]].
   unfold process_file, precheck. rewrite Hcs. eexists. split; [reflexivity|].
   unfold download_file. rewrite Ev. cbn [try_variants]. rewrite Ep. cbn [try_paths].
-  assert (E : exists nr er, try_path f v p (script_of u p) max_tries 0 fs 0 false =
-                            try_path f v p (script_of u p) (max_tries - k) k fs nr er).
-  { destruct Hreq as [-> |[He Hm]]; [exists 0, false; rewrite Nat.sub_0_r; reflexivity|].
-    destruct (try_path_skips f v p (script_of u p) He Hm k (max_tries - k) 0 fs 0 false) as [nr [er E]].
-    { intros j Hj. apply Htr. lia. }
-    exists nr, er. cbn [Nat.add] in E. rewrite <- E. f_equal. lia. }
-  destruct E as [nr [er E]]. rewrite E.
-  destruct (max_tries - k) as [|t] eqn:Et; [lia|]. cbn [try_path]. rewrite Hb. cbn [rbody handle positive_opt].
-  destruct (N.eqb a 0) eqn:Ez; [apply N.eqb_eq in Ez; contradiction|].
-  assert (Hmis : (N.ltb 0 (vsize v) && negb (N.eqb a (vsize v))) = false).
-  { destruct (N.ltb 0 (vsize v)) eqn:El; [|reflexivity]. apply N.ltb_lt in El. rewrite (Hsz El), N.eqb_refl. reflexivity. }
-  rewrite Hmis.
-  destruct (need_update fs p (Some a) (Some d)) eqn:En; cbn [negb].
-  - assert (Hmis2 : (N.ltb 0 (vsize v) && negb (N.eqb (vsize v) a)) = false).
-    { destruct (N.ltb 0 (vsize v)) eqn:El; [|reflexivity]. apply N.ltb_lt in El. rewrite (Hsz El), N.eqb_refl. reflexivity. }
-    rewrite Hmis2. cbn. split; [reflexivity|].
-    intros q Hq. rewrite lookup_set_all, ?Ep, (in_string_mem q (p :: ps) Hq). reflexivity.
-  - destruct (need_update_false _ _ _ _ En) as [i [d' [a' [Hl [Hd [Hp [Hf Hs]]]]]]].
-    injection Hd as <-. cbn [positive_opt] in Hp. rewrite Ez in Hp. injection Hp as <-.
-    rewrite Hl. cbn. split; [reflexivity|].
-    intros q Hq. rewrite lookup_set_all, ?Ep, (in_string_mem q (p :: ps) Hq).
-    destruct i as [sz mt]. cbn in Hf, Hs. subst. reflexivity.
+  destruct (try_path_eventually f v p ps (script_of u p) a d Ep Ha Hsz k max_tries 0 fs 0 false Hreq)
+    as [um [sz [fs' [j [e [Ht Hs]]]]]]; [intros j Hj; apply Htr; lia|exact Hb|exact Hk|].
+  rewrite Ht. cbn. split; [destruct um; reflexivity|]. intros q Hq. apply Hs. rewrite Ep. exact Hq.
 Qed.
 
 (* a whole metadata stage: every file's first-variant paths carry what the upstream announced, whatever the
